@@ -87,6 +87,7 @@ def main():
         if bad:
             raise Unsupported('dynamic feature outside the assumed Python semantics: ' + '; '.join(bad[:5]))
         mod.run(ctx)
+        ctx.discharge_all()
     except Unsupported as e:
         status, message = 'undecided', f'unsupported construct / drift: {e}'
         if a.verbose:
